@@ -100,7 +100,13 @@ class Builder(ExprMixin):
         return self.frames[-1]
 
     def stack_sig(self):
-        return tuple((f.func.qualname, show(f.recv) if f.recv is not None else "") for f in self.frames)
+        out = []
+        for f in self.frames:
+            sg = getattr(f, "sig", None)
+            if sg is None:
+                sg = f.sig = (f.func.qualname, show(f.recv) if f.recv is not None else "")
+            out.append(sg)
+        return tuple(out)
 
     def node(self, kind, preds, may_raise=False, exc=("*",), **attrs):
         """Create an event node after preds.  Returns {node id} (or empty set
@@ -735,6 +741,18 @@ def exc_name_of(v):
 def stmt_text(st):
     """Normalised one-line text of a statement (header only for compound
     statements); used in finding keys instead of line numbers."""
+    t = getattr(st, "_vsa_text", None)
+    if t is not None:
+        return t
+    t = _stmt_text(st)
+    try:
+        st._vsa_text = t
+    except Exception:
+        pass
+    return t
+
+
+def _stmt_text(st):
     try:
         if isinstance(st, (ast.FunctionDef, ast.AsyncFunctionDef)):
             return f"def {st.name}(...)"
